@@ -8,7 +8,7 @@ from mc.engine import Fail, result
 ID = 'C09'
 RULE = ('every multiset of size 1..7 (thorough 1..9 over 7 letters) over a 6-letter integer alphabet and a 6-letter '
         'real alphabet; every query v on a letter, at every gap midpoint, below and above; sample presented sorted, '
-        'reversed, rotated; as list, int/float array; plus structured heavy-tie samples n in {100,1000}, x_i = i mod m. '
+        'reversed, rotated; as list, int/float array; plus structured heavy-tie samples n in {100,1000}, x_i = i mod m; an integer alphabet crossing zero; histories that overwrite the sample array in place between queries. '
         'A (multiset, v) pair is non-trivial iff the multiset has a repeated value, or v equals a sample value, or v '
         'lies outside the sample range; pairs are distinct by construction (enumeration without repetition).')
 ASSUMPTIONS = ['reference = counting with Python comparison and one correctly rounded division count/n',
@@ -39,6 +39,14 @@ def cases(tier, seed):
     for n in (100, 1000):
         for m in (1, 2, 7):
             yield dict(kind='structured', n=n, m=m)
+    # integer alphabet that crosses zero (negative values and negative non-integer queries)
+    neg = [-3, -2, -1, 0, 1, 2]
+    for chunk in space.chunks(space.multisets(neg, 1, 5 if tier == 'quick' else 7), 60):
+        yield dict(kind='multisets', family='int-negative', alpha=neg, msets=[list(m) for m in chunk])
+    # histories on ONE array object: query, overwrite the array in place with another sample, query again
+    small = [list(m) for m in space.multisets([0, 1, 2, 3], 3, 3)]
+    for chunk in space.chunks([(a, b) for a in small for b in small if a != b], 60):
+        yield dict(kind='inplace', pairs=[[a, b] for a, b in chunk])
     # seed-selected extra block: a shifted/scaled real alphabet (complete enumeration of that block)
     shift = [0.1, 1e-9, 123456.789, -7.25][seed % 4]
     alpha = [x + shift for x in REAL_ALPHA]
@@ -152,6 +160,34 @@ def run_case(case):
         nontriv += nt
         states += 1
         sample = dict(structured=dict(n=n, m=m), queries=qs)
+    elif case['kind'] == 'inplace':
+        from csep.utils import stats
+        for a, b in case['pairs']:
+            states += 1
+            for dtype in (int, float):
+                arr = numpy.array(a, dtype=dtype)
+                qs = [-0.5, 0, 1, 1.5, 2, 3, 3.5]
+                for v in qs:
+                    stats.get_quantiles(arr, v)
+                    stats.binned_ecdf(arr, [v])
+                arr[:] = b                      # same object, new content
+                for v in qs:
+                    want = (ref_ge(b, v), ref_le(b, v))
+                    try:
+                        got = tuple(float(t) for t in stats.get_quantiles(arr, v))
+                        gb = float(stats.binned_ecdf(arr, [v])[1][0])
+                    except Exception as e:
+                        failures.append(Fail(f'csep.utils.stats|{type(e).__name__}|after-in-place-overwrite', f'{type(e).__name__}: {e}', dict(kind='inplace', pairs=[[a, b]])))
+                        break
+                    evals += 2
+                    h.update(repr((got, gb)).encode())
+                    nontriv += 1
+                    if got != want or gb != want[1]:
+                        failures.append(Fail('csep.utils.stats.get_quantiles|stale-after-in-place-overwrite-of-the-sample|any',
+                                             f'array first held {a} (queried), then overwritten in place with {b}: v={v} -> {got} / binned {gb}, counting gives {want}',
+                                             dict(kind='inplace', pairs=[[a, b]])))
+                        break
+        sample = dict(inplace_pairs=case['pairs'][:2])
     elif case['kind'] == 'mono':
         e, nt = judge_sample(case['x'], case['vs'], failures, h, 'single', forms=(case['form'],))
         evals += e
